@@ -451,7 +451,8 @@ func (tk *tokenizer) consumeUrl(pos Pos) (Token, Token) {
 badURL:
 	// http://drafts.csswg.org/csswg/css-syntax/#consume-the-remnants-of-a-bad-url0
 	for tk.pos < L {
-		if bytes.HasPrefix(tk.src[tk.pos:], []byte("\\)")) {
+		if tk.src[tk.pos] == '\\' && tk.pos+1 < L && tk.src[tk.pos+1] != '\n' {
+			// a valid escape: the escaped code point (a ")" or another backslash) does not end the url
 			tk.pos += 2
 		} else if tk.src[tk.pos] == ')' {
 			tk.pos += 1
